@@ -206,3 +206,87 @@ def run_check(pid, tier, rules_fn, replay=None):
     except AnalysisBroken as e:
         print('ANALYSIS-BROKEN property=%s: %s' % (pid, e))
         return 2
+
+
+# --------------------------------------------------------------------------
+# thorough tier: every single-feature-off configuration + checker self-test
+# --------------------------------------------------------------------------
+
+VARIANTS = ['HAVE_EPOLL_PWAIT2', 'HAVE_TIMERFD_CREATE', 'HAVE_PPOLL', 'HAVE_SPLICE', 'HAVE_PIPE2', 'HAVE_WAIT4',
+            'HAVE_PTHREAD_SPIN_TRYLOCK', 'HAVE_EPOLL_CREATE1', 'HAVE_EVENTFD', 'HAVE_GETTID', 'HAVE_CLOCK_MONOTONIC']
+
+
+def _variant_dir(sym):
+    import tempfile
+    import re
+    d = tempfile.mkdtemp(prefix='ivy-config-')
+    src = open(os.path.join(core.REPO, 'config.h')).read()
+    out = re.sub(r'^#define\s+%s\s+.*$' % sym, '/* #undef %s */' % sym, src, flags=re.M)
+    if out == src:
+        return None
+    open(os.path.join(d, 'config.h'), 'w').write(out)
+    return d
+
+
+def run_thorough(pid, mod, replay=None):
+    import shutil
+    import subprocess
+    t0 = time.time()
+    if replay:
+        return run_check(pid, 'thorough', mod.run, replay=replay)
+    try:
+        prog = core.load_program()
+        ctx = Ctx(pid, 'thorough', prog, seed=int(os.environ.get('VERIF_SEED', '0') or 0))
+        mod.run(ctx)
+        base_n = len(ctx.obs)
+        variants = []
+        for sym in VARIANTS:
+            d = _variant_dir(sym)
+            if d is None:
+                continue
+            try:
+                try:
+                    vprog = core.load_program(config_dir=d)
+                except AnalysisBroken as e:
+                    variants.append({'config': '-' + sym, 'status': 'does not compile here', 'detail': str(e)[:200]})
+                    continue
+                vctx = Ctx(pid, 'thorough', vprog)
+                try:
+                    mod.run(vctx)
+                except AnalysisBroken as e:
+                    vctx.broken.append(str(e))
+                bad = [o for o in vctx.obs if not o['ok']]
+                variants.append({'config': '-' + sym, 'status': 'analysed', 'obligations': len(vctx.obs), 'failed': len(bad),
+                                 'rule_groups_not_applicable': vctx.broken[:6]})
+                for o in vctx.obs:
+                    o2 = dict(o)
+                    o2['instance'] = '%s [config -%s]' % (o['instance'], sym)
+                    # only failures of the variant are added as obligations of their own (passes are counted)
+                    if not o['ok']:
+                        # a failure that also fails in the default configuration is the same finding
+                        same = [x for x in ctx.obs[:base_n] if x['rule'] == o['rule'] and x['instance'] == o['instance'] and not x['ok']]
+                        if not same:
+                            ctx.obs.append(o2)
+                ctx.configs.append('-' + sym)
+            finally:
+                shutil.rmtree(d, ignore_errors=True)
+        # checker self-test on this property's mutants and neutral edits
+        st = subprocess.run([sys.executable, os.path.join(VERIF, 'tools', 'selftest.py'), '--property', pid],
+                            capture_output=True, text=True, timeout=3000)
+        lines = [l for l in st.stdout.splitlines() if l and not l.startswith(' ')]
+        killed = sum(1 for l in lines if ' KILLED' in l)
+        silent = sum(1 for l in lines if ' SILENT' in l)
+        notok = [l for l in lines if any(x in l for x in (' SURVIVED', ' NOISY', ' BROKEN', ' NOCOMPILE'))]
+        stale = [l for l in lines if ' STALE' in l]
+        if notok:
+            ctx.broken.append('checker self-test: %s' % '; '.join(notok[:5]))
+        extra = {'configuration_variants': variants,
+                 'selftest': {'mutants_killed': killed, 'neutral_edits_silent': silent, 'not_as_expected': notok, 'stale': stale}}
+        for v in variants:
+            print('  config %-28s %s%s' % (v['config'], v['status'],
+                                           (' (%d obligations, %d failed)' % (v['obligations'], v['failed'])) if 'obligations' in v else ''))
+        print('  self-test: %d mutants killed, %d neutral edits silent, %d not as expected, %d stale' % (killed, silent, len(notok), len(stale)))
+        return finish(ctx, t0, extra_cov=extra)
+    except AnalysisBroken as e:
+        print('ANALYSIS-BROKEN property=%s: %s' % (pid, e))
+        return 2
